@@ -98,18 +98,21 @@ def run(ctx, eng):
                x.split('.')[-1] for x in ins_closed))
     # ---- (3) the cap
     fi = m.func(H + '__init__')
-    ok = False
+    ok = cm.Every()
     for nd in ast.walk(fi.node):
         if isinstance(nd, ast.Assign) and any(
                 isinstance(t, ast.Attribute) and t.attr == '_closed_streams'
-                for t in nd.targets) and isinstance(nd.value, ast.Call):
+                for t in nd.targets):
             c = nd.value
-            if isinstance(c.func, ast.Name) and c.func.id == 'SizeLimitDict':
+            capped = False
+            if isinstance(c, ast.Call) and isinstance(c.func, ast.Name) and \
+                    c.func.id == 'SizeLimitDict':
                 for k in c.keywords:
                     if k.arg == 'size_limit':
                         v = m.try_fold(k.value, fi.module, fi.cls)
-                        ok = isinstance(v, int) and 0 < v <= 2 ** 20
+                        capped = isinstance(v, int) and 0 < v <= 2 ** 20
                         cap = v
+            ok(capped)
     ctx.ob('TAB.cap', fi.qual, 'closed-stream memory is capped', ok,
            '_closed_streams = SizeLimitDict(size_limit=MAX_CLOSED_STREAMS) '
            'with a folded positive constant', node=fi.node)
@@ -170,7 +173,7 @@ def run(ctx, eng):
                (' (found %s)' % reorder) if reorder else ''),
            node=cls_sld.node)
     f3i = m.func('utilities.SizeLimitDict.__init__')
-    ok = False
+    ok = cm.Every()
     for nd in ast.walk(f3i.node):
         if isinstance(nd, ast.Assign) and any(
                 isinstance(t, ast.Attribute) and t.attr == '_size_limit'
@@ -178,15 +181,15 @@ def run(ctx, eng):
             v = nd.value
             # kwargs.pop("size_limit", None), or a keyword-only parameter
             # of that name
-            ok = (isinstance(v, ast.Call) and
-                  isinstance(v.func, ast.Attribute) and
-                  v.func.attr == 'pop' and v.args and
-                  isinstance(v.args[0], ast.Constant) and
-                  v.args[0].value == 'size_limit') or (
-                      isinstance(v, ast.Name) and v.id == 'size_limit' and
-                      'size_limit' in [a.arg for a in
-                                       f3i.node.args.kwonlyargs +
-                                       f3i.node.args.args])
+            ok((isinstance(v, ast.Call) and
+                isinstance(v.func, ast.Attribute) and
+                v.func.attr == 'pop' and v.args and
+                isinstance(v.args[0], ast.Constant) and
+                v.args[0].value == 'size_limit') or (
+                    isinstance(v, ast.Name) and v.id == 'size_limit' and
+                    'size_limit' in [a.arg for a in
+                                     f3i.node.args.kwonlyargs +
+                                     f3i.node.args.args]))
     ctx.ob('ARITH.evict', f3i.qual, 'limit taken from size_limit', ok,
            'self._size_limit = the size_limit keyword argument',
            node=f3i.node)
@@ -366,12 +369,12 @@ def check_header_list_cap(ctx, eng):
                                     attr='DEFAULT_MAX_HEADER_LIST_SIZE',
                                     ctx=ast.Load()), 'connection',
                       'connection.H2Connection')
-    ok = False
+    ok = cm.Every()
     adv = False
     for p in cm.normal_paths(eng.I.run(fi)):
         for e in p.events:
             if e.kind == 'write' and e.attr == 'max_header_list_size':
-                ok = e.value == T.C(dflt)
+                ok(e.value == T.C(dflt))
             if e.kind == 'new' and e.cls == 'Settings':
                 iv = e.kwargs.get('initial_values')
                 if iv is not None and iv[0] == 'obj':
@@ -394,16 +397,25 @@ def check_header_list_cap(ctx, eng):
            'local MAX_HEADER_LIST_SIZE starts at the same constant',
            node=fi.node)
     f8 = m.func(H + '_local_settings_acked')
-    ok = False
+    ok = cm.Every()
     for p in cm.normal_paths(eng.I.run(f8)):
         for e in p.events:
-            if e.kind == 'write' and e.attr == 'max_header_list_size' and \
-                    cm.attr_chain(e.base) == 'self.decoder' and \
-                    e.value[0] == 'a' and e.value[2] == 'new_value':
-                ok = True
+            if e.kind == 'write' and e.attr == 'max_header_list_size':
+                ok(cm.attr_chain(e.base) == 'self.decoder' and
+                   e.value[0] == 'a' and e.value[2] == 'new_value')
     ctx.ob('FLOW.header-list-cap', f8.qual, 'refreshed at acknowledge', ok,
            'decoder.max_header_list_size = acknowledged '
            'MAX_HEADER_LIST_SIZE', node=f8.node)
+    # ... and by nothing else: the cap is OUR acknowledged limit; a value the
+    # peer advertises for its own side must not reach the decoder
+    from . import flow
+    writers = flow.attr_writers(eng, 'max_header_list_size')
+    allowed = {H + '__init__', H + '_local_settings_acked'}
+    ctx.ob('OWN.header-list-cap', 'hpack.Decoder.max_header_list_size',
+           'writers', set(writers) <= allowed and len(writers) == 2,
+           'written by %s; the cap follows the local setting only '
+           '(initial value and acknowledged changes)' % sorted(
+               w.split('.')[-1] for w in writers))
     f9 = m.func('connection._decode_headers')
     ok = False
     for p in eng.I.run(f9):
